@@ -16,7 +16,10 @@ use crate::core::tiling::{
 use crate::core::utils::A5Cell;
 use crate::geometry::pentagon::PentagonShape;
 use crate::projections::dodecahedron::DodecahedronProjection;
+#[cfg(not(felixpalmer_a5_rs_verif))]
 use std::collections::HashSet;
+#[cfg(felixpalmer_a5_rs_verif)]
+use crate::verif_set::HashSet;
 
 /// Convert lon/lat coordinates to A5 cell ID
 pub fn lonlat_to_cell(lonlat: LonLat, resolution: i32) -> Result<u64, String> {
